@@ -7,6 +7,10 @@ qu = queue.Queue()
 for d in sys.argv[1:]:
     qu.put(d)
 lock = threading.Lock()
+# one snapshot of the committed tree, so that something applied to /repo's working tree meanwhile (evalmut, replayall)
+# cannot leak into the copies
+SNAP = "/tmp/neutpar_snap"
+subprocess.run("rm -rf %s; mkdir -p %s; git -C /repo archive HEAD | tar -x -C %s; cp /repo/Cargo.lock %s/" % (SNAP, SNAP, SNAP, SNAP), shell=True, check=True)
 def worker(k):
     S = "/tmp/neutpar%d" % k
     while True:
@@ -14,7 +18,7 @@ def worker(k):
             d = qu.get_nowait()
         except queue.Empty:
             return
-        subprocess.run("rm -rf %s/src; mkdir -p %s; rsync -a --exclude target --exclude .git --exclude .smcache /repo/ %s/" % (S, S, S), shell=True)
+        subprocess.run("rm -rf %s/src; mkdir -p %s; rsync -a --delete --exclude target --exclude .smcache %s/ %s/" % (S, S, SNAP, S), shell=True)
         r = subprocess.run(["patch", "-p1", "-s", "-f", "-d", S, "-i", d], capture_output=True, text=True)
         if r.returncode != 0:
             with lock:
